@@ -34,7 +34,13 @@ func runOriginated(t *rapid.T, rec *evid.Rec, id string) {
 	writers := rapid.IntRange(1, 3).Draw(t, "writers")
 	hb := rapid.Bool().Draw(t, "heartbeat")
 	sr := rapid.Bool().Draw(t, "streamreq")
-	desc := fmt.Sprintf("links=%d v2=%v keyed=%v sys=%d comp=%d messages=%d writers=%d heartbeat=%v streamreq=%v", nch, v2, key != nil, sys, comp, nmsg, writers, hb, sr)
+	// what the node accepts is configured separately from what it originates: an incoming key says nothing about
+	// the version or the signing of outgoing frames
+	var inKey *[32]byte
+	if rapid.IntRange(0, 2).Draw(t, "incoming_key") == 0 {
+		inKey = &[32]byte{0x1E, 0x2E, 3}
+	}
+	desc := fmt.Sprintf("links=%d v2=%v keyed=%v incomingKey=%v sys=%d comp=%d messages=%d writers=%d heartbeat=%v streamreq=%v", nch, v2, key != nil, inKey != nil, sys, comp, nmsg, writers, hb, sr)
 	pipes := make([]*sim.Pipe, nch)
 	var endpoints []gomavlib.EndpointConf
 	for i := range pipes {
@@ -42,7 +48,7 @@ func runOriginated(t *rapid.T, rec *evid.Rec, id string) {
 		endpoints = append(endpoints, gomavlib.EndpointCustom{ReadWriteCloser: pipes[i]})
 	}
 	n := &gomavlib.Node{Endpoints: endpoints, Dialect: ardupilotmega.Dialect, OutVersion: gomavlib.V1, OutSystemID: sys, OutComponentID: comp,
-		OutKey: keyOf(key), HeartbeatDisable: !hb, HeartbeatPeriod: 3 * time.Millisecond, StreamRequestEnable: sr}
+		OutKey: keyOf(key), InKey: keyOf(inKey), HeartbeatDisable: !hb, HeartbeatPeriod: 3 * time.Millisecond, StreamRequestEnable: sr}
 	if v2 {
 		n.OutVersion = gomavlib.V2
 	}
@@ -61,7 +67,13 @@ func runOriginated(t *rapid.T, rec *evid.Rec, id string) {
 		for i, p := range pipes {
 			f := ref.Frame{V2: true, Sys: byte(20 + i), Comp: 1, ID: 0}
 			f.Payload = hbLay.Encode(&minimal.MessageHeartbeat{Autopilot: 3, SystemStatus: 4}, true)
+			if inKey != nil {
+				f.Incompat, f.LinkID, f.Timestamp = 1, byte(i), 7000000
+			}
 			f.Checksum = f.ChecksumFor(50)
+			if inKey != nil {
+				f.Sig = f.SignatureFor(*inKey)
+			}
 			p.Feed(f.Bytes())
 		}
 	}
@@ -176,6 +188,9 @@ func runOriginated(t *rapid.T, rec *evid.Rec, id string) {
 	if !v2 {
 		cls = append(cls, "v1")
 	}
+	if inKey != nil && !v2 {
+		cls = append(cls, "v1-output-with-incoming-key")
+	}
 	rec.Case(total > 20, evid.HashS(desc), cls...)
 	if rec.WantSample("node") {
 		rec.Sample("node", map[string]interface{}{"scenario": desc, "frames_checked": total})
@@ -188,7 +203,7 @@ func since2015(tm time.Time) uint64 {
 
 func TestC09NodeOriginated(t *testing.T) {
 	rec := evid.New(t, "C09", "node level: 2..4 links, 1..3 goroutines issuing WriteMessageAll/To/Except, heartbeats every 3 ms and stream requests enabled; each link's byte stream parsed by the reference: per link sequence numbers 0,1,2,... over application messages, heartbeats and stream requests alike, configured system/component id (1 when unset), version, zero compat flags, reference checksum, v1 payload = base size; non-trivial = more than 20 frames checked; distinct by hash of the scenario")
-	rec.Require("wraps-256", "with-heartbeats", "with-stream-requests", "v1", "keyed")
+	rec.Require("wraps-256", "with-heartbeats", "with-stream-requests", "v1", "keyed", "v1-output-with-incoming-key")
 	evid.Check(t, rec, evid.N(120, 400), func(t *rapid.T) { runOriginated(t, rec, "C09") })
 }
 
